@@ -89,7 +89,16 @@ func (s *skel) ops(depth int, n ast.Node) {
 				name = f.Name
 			}
 			if s.listed[name] {
-				s.emit(depth, "call "+name)
+				if name == "getTask" || name == "notifyDeletion" {
+					// which task / which cause: the arguments are part of the protocol
+					var args []string
+					for _, a := range x.Args {
+						args = append(args, s.src(a))
+					}
+					s.emit(depth, "call "+name+" "+strings.Join(args, " "))
+				} else {
+					s.emit(depth, "call "+name)
+				}
 			}
 			return false
 		}
